@@ -1,4 +1,5 @@
 import TradingVerif.Props.C02
+import TradingVerif.Props.C18
 #print axioms TV.grid_le_last
 #print axioms TV.sorted_upto
 #print axioms TV.batches_depend_on_past
@@ -15,3 +16,4 @@ import TradingVerif.Props.C02
 #print axioms TV.reset_no_lookahead
 #print axioms TV.episode_no_lookahead
 #print axioms TV.episode_no_lookahead_streams
+#print axioms TV.Tab.tabular_obs_causal
